@@ -28,7 +28,7 @@ var BreakingEdits = []string{"remove-scope", "prefix-add-token", "prefix-remove-
 	"remove-op", "retype-op", "remove-structlike", "retype-field", "toggle-required", "add-required-field", "remove-nonoptional-field",
 	"remove-enum-value", "renumber-enum-value", "remove-service", "change-extends", "remove-method", "toggle-oneway", "retype-return",
 	"retype-arg", "remove-arg", "add-required-arg", "retype-exception", "add-exception-to-bare-void", "remove-last-exception-of-void", "retarget-typedef",
-	"add-required-field-in-middle", "add-required-arg-in-middle"}
+	"add-required-field-in-middle", "add-required-arg-in-middle", "retype-const-and-field", "swap-include-qualifier"}
 
 var CompatibleEdits = []string{"identity", "rename-field", "rename-arg", "rename-exception", "rename-prefix-var", "rename-enum-variant",
 	"add-optional-field", "add-default-field", "add-field-in-middle", "add-enum-value", "add-method", "add-service", "add-scope", "add-op", "add-struct",
@@ -273,6 +273,124 @@ func ApplyEdit(p *Program, e Edit) (q *Program, ok bool, site string) {
 	switch e.Kind {
 	case "identity":
 		return q, true, "-"
+
+	// ---------------- a constant (compatible on its own) and a field / argument of the same type
+	// retyped in the same way: the field change is still a breaking change
+	case "retype-const-and-field":
+		type pair struct {
+			c *Decl
+			s fieldSite
+		}
+		var pairs []pair
+		for _, c := range ed.decls("const") {
+			if c.Type == nil || c.Type.Kind != "base" || c.Type.Name == "binary" {
+				continue
+			}
+			for _, fs := range ed.fieldSites(true, true, false) {
+				f := (*fs.fields)[fs.idx]
+				if f.Type.Kind == "base" && f.Type.Name == c.Type.Name {
+					pairs = append(pairs, pair{c, fs})
+				}
+			}
+		}
+		if len(pairs) == 0 {
+			return q, false, ""
+		}
+		pr := pairs[pick(len(pairs))]
+		nt := ed.retype(pr.c.Type, e.C, true)
+		zero := map[string]*Value{"bool": {Kind: "bool"}, "string": {Kind: "string"}, "double": {Kind: "double"}}[nt.Name]
+		if zero == nil {
+			zero = &Value{Kind: "int"}
+		}
+		if countIdentRefs(q, pr.c.Name) > 0 {
+			return q, false, ""
+		}
+		pr.c.Type, pr.c.Value = nt, zero
+		f := &(*pr.s.fields)[pr.s.idx]
+		f.Type, f.Default = &Type{Kind: "base", Name: nt.Name}, nil
+		return q, true, fmt.Sprintf("%s field %d (%s) and const %s", pr.s.owner, f.ID, f.Name, pr.c.Name)
+
+	// ---------------- a reference moves to the declaration of the same name in another include
+	case "swap-include-qualifier":
+		type occ struct {
+			t     *Type
+			def   **Value
+			where string
+		}
+		var occs []occ
+		var collect func(t *Type, def **Value, where string)
+		collect = func(t *Type, def **Value, where string) {
+			if t == nil {
+				return
+			}
+			if t.Kind == "ref" && t.File != ed.r {
+				occs = append(occs, occ{t, def, where})
+			}
+			collect(t.Key, def, where)
+			collect(t.Val, def, where)
+		}
+		for _, d := range ed.f.Decls {
+			if d.StructLike() {
+				for i := range d.Fields {
+					collect(d.Fields[i].Type, &d.Fields[i].Default, fmt.Sprintf("%s field %d (%s)", d.Name, d.Fields[i].ID, d.Fields[i].Name))
+				}
+			}
+			for mi := range d.Methods {
+				m := &d.Methods[mi]
+				collect(m.Ret, nil, fmt.Sprintf("%s.%s return type", d.Name, m.Name))
+				for i := range m.Args {
+					collect(m.Args[i].Type, &m.Args[i].Default, fmt.Sprintf("%s.%s argument %d", d.Name, m.Name, m.Args[i].ID))
+				}
+				for i := range m.Throws {
+					collect(m.Throws[i].Type, nil, fmt.Sprintf("%s.%s exception %d", d.Name, m.Name, m.Throws[i].ID))
+				}
+			}
+			for i := range d.Ops {
+				collect(d.Ops[i].Type, nil, fmt.Sprintf("scope %s operation %s", d.Name, d.Ops[i].Name))
+			}
+		}
+		type swap struct {
+			o  occ
+			to int
+		}
+		var swaps []swap
+		for _, o := range occs {
+			cur := q.Decl(o.t.File, o.t.Name)
+			if cur == nil || cur.Kind == "typedef" {
+				continue
+			}
+			for _, inc := range ed.f.Includes {
+				if inc == o.t.File {
+					continue
+				}
+				if other := q.Decl(inc, o.t.Name); other != nil && other.Kind == cur.Kind {
+					swaps = append(swaps, swap{o, inc})
+				}
+			}
+		}
+		if len(swaps) > 0 {
+			sw := swaps[pick(len(swaps))]
+			from := q.Files[sw.o.t.File].Name
+			sw.o.t.File = sw.to
+			if sw.o.def != nil {
+				*sw.o.def = nil
+			}
+			return q, true, fmt.Sprintf("%s : %s.%s -> %s.%s", sw.o.where, from, sw.o.t.Name, q.Files[sw.to].Name, sw.o.t.Name)
+		}
+		// ... or a service extends the service of the same name in another include
+		for _, d := range ed.decls("service") {
+			if d.Extends == nil || d.Extends.File == ed.r {
+				continue
+			}
+			for _, inc := range ed.f.Includes {
+				if inc != d.Extends.File && q.Service(inc, d.Extends.Name) != nil {
+					from := q.Files[d.Extends.File].Name
+					d.Extends.File = inc
+					return q, true, fmt.Sprintf("service %s extends %s.%s -> %s.%s", d.Name, from, d.Extends.Name, q.Files[inc].Name, d.Extends.Name)
+				}
+			}
+		}
+		return q, false, ""
 
 	// ---------------- scopes
 	case "remove-scope":
